@@ -17,7 +17,6 @@ import (
 	oteltrace "go.opentelemetry.io/otel/trace"
 	"io"
 	"net/http"
-	"net/http/httptrace"
 	nurl "net/url"
 	"strings"
 )
@@ -72,11 +71,6 @@ func request(r *http.Request, cli client) (*http.Response, error) {
 		var h internal.ResponseHandler
 		r, h = interceptor(r)
 		respHandlers[i] = h
-	}
-
-	clientTrace := httptrace.ContextClientTrace(ctx)
-	if clientTrace != nil {
-		ctx = httptrace.WithClientTrace(ctx, clientTrace)
 	}
 
 	r = r.WithContext(ctx)
